@@ -209,6 +209,10 @@ class Run:
 
     def _loop_exc(self, loop, context):
         self.loop_exceptions.append(str(context.get("exception") or context.get("message")))
+        # an exception escaping from the library into the event loop is an event no step of the specification explains
+        ex = context.get("exception")
+        if ex is not None and not (self.events and self.events[-1].get("ev") == "end"):
+            self.log("loop_exc", what=f"{type(ex).__name__}: {ex}"[:160])
 
     # ---- logging
     def now_ticks(self):
